@@ -1,7 +1,7 @@
 (* C16 -- Everything the endpoint emits is well-formed HTTP/3 and WebTransport. *)
 From WT.Model Require Import Base Varint Ids Frame Async StreamTS Wire Qpack Session Runner Emit.
 From WT.Spec Require Import Spec9114.
-From WT.Proofs Require Import VarintP FrameP WireP QpackP SpecP EmitP.
+From WT.Proofs Require Import VarintP FrameP WireP QpackP SpecP EmitP HuffmanP QpackRT EmitOrderP.
 
 (* the control stream: stream type 0x00 then exactly one SETTINGS frame whose content, for every
    iteration order of the map, is the set of settings below *)
@@ -30,6 +30,18 @@ Proof. exact emit_datagram_spec. Qed.
 
 Theorem C16_field_sections_static_only : forall l, exists r, qpack_encode l = 0 :: 0 :: r.
 Proof. exact emit_section_prefix. Qed.
+
+(* pseudo-header fields first, whatever the map holds; every field line is a static-table reference
+   or a literal (never a dynamic-table or post-base reference); and what is emitted decodes, under
+   the decoder transcribed in Model/Qpack.v, to exactly the fields that were put in *)
+Theorem C16_pseudo_headers_first : forall m, pfirst false (sorted_headers m) = true.
+Proof. exact sorted_headers_pseudo_first. Qed.
+Theorem C16_field_lines_static_or_literal :
+  forall kv, exists b r, enc_field kv = b :: r /\ static_or_literal b = true.
+Proof. exact enc_field_static_or_literal. Qed.
+Theorem C16_field_sections_decode :
+  forall l, fields_okb l = true -> qpack_decode (qpack_encode l) = Val (fold_left ins l []).
+Proof. exact qpack_roundtrip_b. Qed.
 
 Theorem C16_static_references_sound :
   forall k v,
